@@ -2,6 +2,12 @@
 
 package rosmar
 
+import (
+	"context"
+
+	sgbucket "github.com/couchbase/sg-bucket"
+)
+
 // Concurrency harnesses: two client goroutines, the schedule is explored by
 // the executor (context switches before lock / SQL / channel / condition
 // operations, bounded number of preemptions).
@@ -187,5 +193,51 @@ func Harness_C04_twoWriters() {
 	d1, d2 := verifGetDoc(ce.env.db, 1, "k1"), verifGetDoc(ce.env.db, 1, "k2")
 	verifAssert(d1.Cas != d2.Cas, "concurrent writers get distinct CAS values")
 	verifAssert(ce.casInvariant(), "every stored CAS is at most the collection's and the bucket's high-water mark (CAS order is commit order)")
+	verifReach("done")
+}
+
+// C02-B for the xattr family: two UpdateXattrs carrying the same (current) CAS.
+func Harness_C02_xattrCasRace() {
+	ce := concBegin(true, true)
+	verifAssume(verifAnd(ce.pre.hasBody(), ce.pre.Xattrs == nil, len(ce.pre.Value) < 1000))
+	v := uint64(ce.pre.Cas)
+	ctx := context.Background()
+	u := ce.env.U[0]
+	verifAssume(validateXattrKey(u) == nil)
+	var e1, e2 error
+	verifExplore(verifPreemptions() - 1)
+	go func() { _, e1 = ce.c1.UpdateXattrs(ctx, ce.key, 0, v, map[string][]byte{u: []byte(`"one"`)}, nil) }()
+	go func() { _, e2 = ce.c2.UpdateXattrs(ctx, ce.key, 0, v, map[string][]byte{u: []byte(`"two"`)}, nil) }()
+	verifJoin()
+	verifAssert(verifLiveThreads() == 0, "both operations terminate (no deadlock)")
+	verifAssert(!verifAnd(e1 == nil, e2 == nil), "two xattr writers that both read version v cannot both replace v")
+	verifAssert(verifOr(e1 == nil, e2 == nil), "one of two writers holding the current CAS succeeds")
+	verifReach("done")
+}
+
+// C03: WriteUpdateWithXattrs || WriteUpdateWithXattrs: both callbacks' effects survive.
+func Harness_C03_writeUpdateWithXattrs() {
+	ce := concBegin(true, true)
+	verifAssume(verifAnd(ce.pre.hasBody(), ce.pre.Xattrs == nil, len(ce.pre.Value) < 1000))
+	ctx := context.Background()
+	u0, u1 := ce.env.U[0], ce.env.U[1]
+	verifAssume(verifAnd(validateXattrKey(u0) == nil, validateXattrKey(u1) == nil))
+	upd := func(c *Collection, name string, val string) error {
+		_, err := c.WriteUpdateWithXattrs(ctx, ce.key, []string{u0, u1}, 0, nil, &sgbucket.MutateInOptions{},
+			func(doc []byte, xattrs map[string][]byte, cas uint64) (sgbucket.UpdatedDoc, error) {
+				return sgbucket.UpdatedDoc{Doc: doc, Xattrs: map[string][]byte{name: []byte(val)}}, nil
+			})
+		return err
+	}
+	var e1, e2 error
+	verifExplore(verifPreemptions() - 1)
+	go func() { e1 = upd(ce.c1, u0, `"one"`) }()
+	go func() { e2 = upd(ce.c2, u1, `"two"`) }()
+	verifJoin()
+	verifAssert(verifLiveThreads() == 0, "both operations terminate (no deadlock)")
+	verifAssert(verifAnd(e1 == nil, e2 == nil), "concurrent WriteUpdateWithXattrs loops succeed")
+	post := verifGetDoc(ce.env.db, 1, ce.key)
+	verifAssert(verifAnd(verifBytesEq(verifXattrGet(post.Xattrs, u0), []byte(`"one"`)), verifBytesEq(verifXattrGet(post.Xattrs, u1), []byte(`"two"`))),
+		"each callback's result is stored on top of the version it was shown: no xattr update is lost")
 	verifReach("done")
 }
